@@ -55,6 +55,7 @@ def run():
     stream("first-last", S.with_instances(ck, S.f22_cases(ck), n_inst=1))
     stream("placement", S.with_instances(ck, S.placement_cases(ck), n_inst=mult))
     stream("empty-range", S.with_instances(ck, S.empty_range_cases(ck), n_inst=1))
+    stream("range-x", S.with_instances(ck, S.range_x_cases(ck), n_inst=mult))
     stream("sort-key", S.with_instances(ck, S.sortdirect_cases(ck), n_inst=1))
     stream("random", S.random_cases(ck, ck.n(1000, 8000) * mult))
 
